@@ -45,6 +45,7 @@ const (
 	cfgMinDepositV1  = 5000
 	cfgMinDepositV2  = 2000
 	cfgV1VoteAmount  = 3
+	cfgRegExtra      = 1 // a registration pays this much more than the minimum deposit (DPoS.tla RegExtra)
 	cfgStakeUntilReg = 0 // StakeUntil comes with the item
 )
 
@@ -341,13 +342,28 @@ func txActivate(p *producerKeys, salt uint32) interfaces.Transaction {
 	return tx
 }
 
+// v1VoteShape: the vote output a voter uses.  Amounts the code treats separately are kept
+// different on purpose (equal-by-construction values hide wrong-variable defects):
+//   - a2 votes with a VoteProducerAndCRVersion output, counted by the per-candidate
+//     amount (cfgV1VoteAmount); the output itself is worth more than twice that;
+//   - a1 votes with a version-0 output, counted by the output value (cfgV1VoteAmount);
+//     the per-candidate amount it carries (ignored by the code) is different.
+// The spec's V1Amt is what the producer is credited with in both cases.
+func v1VoteShape(voter string) (version byte, value, votes common.Fixed64) {
+	if voter == "a1" {
+		return outputpayload.VoteProducerVersion, cfgV1VoteAmount * ELA, 1 * ELA
+	}
+	return outputpayload.VoteProducerAndCRVersion, (2*cfgV1VoteAmount + 1) * ELA, cfgV1VoteAmount * ELA
+}
+
 // txVoteV1: a TransferAsset carrying one vote output (Delegate) of voter a for producer p.
-func txVoteV1(a *voterKeys, p *producerKeys, amount common.Fixed64, salt uint32) interfaces.Transaction {
+func txVoteV1(a *voterKeys, p *producerKeys, salt uint32) interfaces.Transaction {
+	version, value, votes := v1VoteShape(a.name)
 	return mkTx(common2.TxVersion09, common2.TransferAsset, 0, &payload.TransferAsset{}, saltInput(salt),
-		[]*common2.Output{{Value: amount, ProgramHash: a.stdAddr, Type: common2.OTVote,
-			Payload: &outputpayload.VoteOutput{Version: outputpayload.VoteProducerAndCRVersion,
+		[]*common2.Output{{Value: value, ProgramHash: a.stdAddr, Type: common2.OTVote,
+			Payload: &outputpayload.VoteOutput{Version: version,
 				Contents: []outputpayload.VoteContent{{VoteType: outputpayload.Delegate,
-					CandidateVotes: []outputpayload.CandidateVotes{{Candidate: p.owner.pub, Votes: amount}}}}}}}, nil)
+					CandidateVotes: []outputpayload.CandidateVotes{{Candidate: p.owner.pub, Votes: votes}}}}}}}, nil)
 }
 
 // txSpend: a plain transfer spending the given outpoint (cancels the vote it carries).
@@ -357,10 +373,13 @@ func txSpend(prev common2.OutPoint, amount common.Fixed64, to common.Uint168) in
 		[]*common2.Output{{Value: amount, ProgramHash: to, Type: common2.OTNone, Payload: &outputpayload.DefaultOutput{}}}, nil)
 }
 
+// txStake: the stake output carries the vote rights; a change output of a different value
+// follows it (the code must take the rights from the stake output only).
 func txStake(params *config.Configuration, a *voterKeys, amount common.Fixed64, salt uint32) interfaces.Transaction {
 	return mkTx(common2.TxVersion09, common2.ExchangeVotes, 0, &payload.ExchangeVotes{}, saltInput(salt),
 		[]*common2.Output{{Value: amount, ProgramHash: *params.StakePoolProgramHash, Type: common2.OTStake,
-			Payload: &outputpayload.ExchangeVotesOutput{Version: 0, StakeAddress: a.stakeAddr}}},
+			Payload: &outputpayload.ExchangeVotesOutput{Version: 0, StakeAddress: a.stakeAddr}},
+			{Value: 2*amount + 5*ELA, ProgramHash: a.stdAddr, Type: common2.OTNone, Payload: &outputpayload.DefaultOutput{}}},
 		[]*program.Program{{Code: a.code, Parameter: []byte{1}}})
 }
 
